@@ -480,8 +480,37 @@ def r_case(kind, loop, place, pos):
             "units": [{"funcs": [f], "entry": "f", "inputs": [({"a": 0}, {})]}]}
 
 
+def r_sibling_case(kind, first_scope, second_scope):
+    """Two disjoint sibling scopes declare the same name; the second declaration has no initialiser and must start at zero."""
+    T = {"int": "int", "float": "float", "array": ("arr", "int", (2,)), "struct": ("struct", "P")}[kind]
+    acc = (lambda v: v) if kind in ("int", "float") else ((lambda v: IDX(v, 1)) if kind == "array" else (lambda v: FLD(v, "hb")))
+    seven = lit(7.0) if kind == "float" else lit(7)
+    first = [("decl", T, "v", None), ASG(acc(V("v")), seven), ASG(V("t"), B("+", V("t"), acc(V("v"))))]
+    second = [("decl", T, "v", None), ASG(acc(V("v")), B("+", acc(V("v")), V("n"))), ASG(V("t"), B("+", B("*", V("t"), lit(10)), acc(V("v"))))]
+
+    def wrap(kind_, body):
+        if kind_ == "block":
+            return [("block", body)]
+        if kind_ == "if":
+            return [("if", B("<", V("n"), lit(9)), ("block", body), None)]
+        if kind_ == "else":
+            return [("if", B(">", V("n"), lit(9)), ("block", [ASG(V("t"), lit(0))]), ("block", body))]
+        if kind_ == "for":
+            return [("for", ("decl", "int", "q" + str(len(body)), lit(0)), B("<", V("q" + str(len(body))), lit(2)), ("pre", "++", "q" + str(len(body))), ("block", body + [ASG(V("n"), B("+", V("n"), lit(1)))]))]
+        raise ValueError(kind_)
+    rt = "float" if kind == "float" else "int"
+    body = [("decl", rt, "t", lit(1.0) if kind == "float" else lit(1)), ("decl", "int", "n", lit(1))] + wrap(first_scope, first) + wrap(second_scope, second + [ASG(V("n"), B("+", V("n"), lit(1)))]) + [("ret", V("t"))]
+    f = func("f", [("int", "a")], rt, body)
+    return {"fam": "R", "desc": f"sibling-reuse;decl={kind};{first_scope}-then-{second_scope}", "prog": {"structs": [("P", [("int", "fa"), ("int", "hb")])]},
+            "units": [{"funcs": [f], "entry": "f", "inputs": [({"a": 0}, {})]}]}
+
+
 @family("R")
 def fam_R(tier):
+    for kind in ("int", "float", "array", "struct"):
+        for first_scope in ("block", "if", "for"):
+            for second_scope in ("block", "if", "else", "for"):
+                yield (r_sibling_case, kind, first_scope, second_scope)
     for kind in ("int", "int-init", "float", "array", "array2", "struct", "struct-array-field", "struct-nested-field", "array-of-vectors"):
         for loop in ("for", "while", "do"):
             for place in ("body", "block", "if", "nested"):
@@ -1256,6 +1285,23 @@ def c_case(tn, shape, aname, action):
                     ("ret", B("+", V("p"), V("q")))], export=False)
         helpers = [rec]
         stm = [ASG(V("r"), ("call", "g", [V("l1"), lit(2)]))]
+    elif shape in ("callee-more-params", "same-value-twice", "caller-params-passed-on", "callee-fewer-params"):
+        if shape == "callee-more-params":
+            g4 = func("g", [(T, "p"), (T, "q"), (T, "u"), ("int", "k"), (T, "w")], T, list(action) + [ASG(V("q"), V("p")), ASG(V("w"), V("q")), ("ret", B("+", B("+", V("p"), V("u")), V("w")))], export=False)
+            helpers = [g4]
+            stm = [ASG(V("r"), ("call", "g", [V("l1"), V("a2"), V("l2"), lit(1), V("a1")]))]
+        elif shape == "same-value-twice":
+            g2 = func("g", [(T, "p"), ("int", "k"), (T, "q")], T, list(action) + [("ret", B("+", V("p"), V("q")))], export=False)
+            helpers = [g2]
+            stm = [ASG(V("r"), ("call", "g", [V("l1"), lit(1), V("l1")]))]
+        elif shape == "caller-params-passed-on":
+            g2 = func("g", [(T, "p"), ("int", "k"), (T, "q")], T, list(action) + [ASG(V("q"), V("p")), ("ret", B("+", V("p"), V("q")))], export=False)
+            helpers = [g2]
+            stm = [ASG(V("r"), ("call", "g", [V("a2"), V("sel"), V("a1")]))]
+        else:
+            g1 = func("g", [(T, "p")], T, [("decl", "int", "k", lit(1))] + list(action) + [("ret", V("p"))], export=False)
+            helpers = [g1]
+            stm = [ASG(V("r"), B("+", ("call", "g", [V("l1")]), ("call", "g", [V("a2")])))]
     elif shape in ("recursion-local-kept", "recursion-temp-kept", "mutual-recursion-local-kept"):
         # the caller's own local (declared and set BEFORE the recursive call) and an expression temporary are read AFTER it
         keep = [("decl", T, "keep", B("+", V("p"), V("p"))), ("decl", "int", "kk", B("*", V("k"), lit(10)))]
@@ -1327,6 +1373,19 @@ def c_overload_case(pair, which, mutate):
             "units": [{"funcs": [f], "entry": "f", "inputs": [({"sel": s, "a1": val}, {}) for s in (0, 1)]}]}
 
 
+def c_later_param_case(which, val, tag):
+    """Overloads that differ only in their LAST parameter; the first parameter is mutated by each."""
+    names = {"int": "int", "float": "float", "float4": F4}
+    helpers = []
+    for t, k in (("int", 1), ("float", 2), ("float4", 3)):
+        helpers.append(func("ov", [("int", "p"), ("int", "m"), (names[t], "q")], "int", [ASG(V("p"), B("+", V("p"), lit(100))), ("ret", B("+", B("*", V("p"), lit(10)), lit(k)))], export=False))
+    T = names[which]
+    body = [("decl", "int", "r", ("call", "ov", [V("a0"), lit(0), V("a1")])), ("if", B("==", V("sel"), lit(0)), ("block", [("ret", V("r"))]), None), ("ret", V("a0"))]
+    f = func("f", [("int", "sel"), ("int", "a0"), (T, "a1")], "int", body)
+    return {"fam": "C", "desc": f"shape=overload-later-parameter;arg={which}", "prog": {"funcs": helpers},
+            "units": [{"funcs": [f], "entry": "f", "inputs": [({"sel": s_, "a0": 7, "a1": val}, {}) for s_ in (0, 1)]}]}
+
+
 def c_convert_case(kind):
     """Argument conversions at the call boundary (values where floor = trunc)."""
     if kind == "int-to-float":
@@ -1359,7 +1418,8 @@ def c_convert_case(kind):
 @family("C")
 def fam_C(tier):
     shapes = ["single", "two-in-expression", "nested", "operand-after-call", "operand-before-call", "in-loop", "exported-callee", "recursion", "mutual-recursion",
-              "recursion-local-kept", "recursion-temp-kept", "mutual-recursion-local-kept"]
+              "recursion-local-kept", "recursion-temp-kept", "mutual-recursion-local-kept",
+              "callee-more-params", "same-value-twice", "caller-params-passed-on", "callee-fewer-params"]
     for tn in C_TYPES:
         for shape in shapes:
             for aname, action in c_actions(tn):
@@ -1372,6 +1432,8 @@ def fam_C(tier):
         for which in pair:
             for mutate in (False, True):
                 yield (c_overload_case, pair, which, mutate)
+    for which, val, tag in (("int", 5, 1), ("float", 1.5, 2), ("float4", [1.5, 2.5, 3.5, 4.5], 3)):
+        yield (c_later_param_case, which, val, tag)
     for kind in ("int-to-float", "float-to-int", "mixed-two-args", "float-to-int-fraction", "float-vector-to-int-vector", "int-vector-to-float-vector"):
         yield (c_convert_case, kind)
 
@@ -1557,6 +1619,21 @@ def v_misc_units(tier):
                 add([(T, "v"), (T, "w")], T, B("%", V("w"), V("v")), [({"v": a, "w": b}, {})], "vector%vector;int")
             add([(T, "v"), (T, "w")], T, B("&&", V("v"), V("w")), [({"v": [0] + a[1:] if c == "int" else [0.0] + a[1:], "w": b}, {})], f"vector&&vector;{c}")
             add([(T, "v"), (T, "w")], T, B("||", V("v"), V("w")), [({"v": [0] * n if c == "int" else [0.0] * n, "w": [0] + b[1:] if c == "int" else [0.0] + b[1:]}, {})], f"vector||vector;{c}")
+    # both operands the same variable
+    for n in (2, 3, 4):
+        T = VT("float", n)
+        a = vec_value("float", n, 1)
+        for op in ("+", "-"):
+            add([(T, "v")], T, B(op, V("v"), V("v")), [({"v": a}, {})], f"vector{op}itself")
+        add([(T, "v")], VT("int", n), B("==", V("v"), V("v")), [({"v": a}, {})], "vector==itself")
+    for n in (3, 4):
+        M = ("mat", "float", n, n)
+        A = mat_value(n, 1)
+        A[0][n - 1] = 0.25
+        add([(M, "m")], M, B("*", V("m"), V("m")), [({"m": A}, {})], "matrix*itself")
+        add([(M, "m")], M, B("+", V("m"), V("m")), [({"m": A}, {})], "matrix+itself")
+        add([(M, "m")], VT("float", n), B("*", V("m"), IDX(V("m"), n - 1)), [({"m": A}, {})], "matrix*own-row")
+        add([(M, "m"), (M, "k")], M, B("*", B("*", V("m"), V("k")), V("m")), [({"m": A, "k": mat_value(n, 20)}, {})], "matrix*matrix*matrix")
     # mixed int/float vector arithmetic (promotion of a whole vector)
     add([(VT("int", 3), "v"), (VT("float", 3), "w")], VT("float", 3), B("+", V("v"), V("w")), [({"v": [1, 2, 3], "w": [0.5, 1.5, 2.5]}, {})], "vector+vector;mixed")
     add([(VT("int", 3), "v"), ("float", "s")], VT("float", 3), B("*", V("v"), V("s")), [({"v": [1, 2, 3], "s": 1.5}, {})], "vector*scalar;mixed")
@@ -1847,6 +1924,10 @@ def fam_LONG(tier):
         e = " + ".join(["a"] * n)
         src = f"export function f(int a) -> int {{ return {e}; }}\n"
         yield {"fam": "LONG", "desc": f"operands={n}", "src": src, "units": [{"funcs": [], "entry": "f", "inputs": [({"a": 3}, {})]}]}
+    for n in ([127, 128, 130] if tier == "quick" else [100, 127, 128, 129, 200, 300]):
+        src = "".join(f"{'export ' if k % 7 == 0 else ''}function fn{k}(int a) -> int {{ return a + {k}; }}\n" for k in range(n - 1))
+        src += "export function f(int a) -> int { return a + 1; }\n"
+        yield {"fam": "LONG", "desc": f"functions={n}", "src": src, "units": [{"funcs": [], "entry": "f", "inputs": [({"a": 1}, {})]}]}
     for n in ([1, 5, 20] if tier == "quick" else [1, 2, 5, 10, 20, 40]):
         loops = "".join(f"for (int i{k} = 0; i{k} < 2; ++i{k}) {{ " for k in range(n)) + "a = a + 1; " + "} " * n
         src = f"export function f(int a) -> int {{ {loops} return a; }}\n"
